@@ -5,6 +5,7 @@
    record: [id, events = sequence of [op, c, fl (sequence of filter letters), i, f, p, how ("warm"|"cold"|"mismatch"|"-"),
                                        res, key (observed identity of the dataset handed out: <<base name, provenance letters>>),
                                        dig (per-maze digests), ref (reference digests of the model's denotation of this handle),
+                                       v (view name; dig = per-maze digests of the view, ref = the same view of the model's denotation),
                                        j, d, k (collection operations), mkeys (observed member identities of a collection; dig = its flattened mazes)]]
    Layer P (C11): a request hands out exactly the dataset of the requested configuration.
    Layer M: cache warm/cold as the model says; filter / save / read results are what the model says. *)
@@ -23,6 +24,7 @@ Act == CASE Ev.op = "request" -> Request(Ev.c, Ev.fl)
          [] Ev.op = "collect" -> Collect(Ev.i, Ev.j)
          [] Ev.op = "collgen" -> CollGenerate(Ev.c, Ev.d)
          [] Ev.op = "collrt" -> CollRoundTrip(Ev.k)
+         [] Ev.op = "view" -> View(Ev.i, Ev.v)
 NewHandle == Len(hs') = Len(hs) + 1
 ModelHow == hist'[Len(hist')].how
 Clauses ==
@@ -35,6 +37,9 @@ Clauses ==
        (IF Ev.res # "ok" THEN {"M:collection_operation_raised"} ELSE {})
     \cup (IF Ev.res = "ok" /\ (Ev.mkeys # [m \in 1..Len(colls'[Len(colls')]) |-> colls'[Len(colls')][m].cfg] \/ Ev.dig # Ev.ref)
             THEN {"M:collection_is_not_the_models_collection"} ELSE {})
+  ELSE IF Ev.op = "view" THEN
+       (IF Ev.res # "ok" THEN {"M:operation_raised"} ELSE {})
+    \cup (IF Ev.res = "ok" /\ Ev.dig # Ev.ref THEN {"M:view_differs_from_the_view_of_the_models_dataset"} ELSE {})
   ELSE (IF Ev.res # "ok" THEN {"M:operation_raised"} ELSE {})
     \cup (IF Ev.res = "ok" /\ NewHandle /\ (Ev.key # hs'[Len(hs')].cfg \/ Ev.dig # Ev.ref) THEN {"M:result_is_not_the_models_dataset"} ELSE {})
 TStep == /\ tid <= Len(Log) /\ l <= Len(T.events) /\ ENABLED Act
